@@ -10,6 +10,11 @@
 (* symbol referents, edges, function membership, entries; fresh proxies    *)
 (* are compared modulo identity).  A mismatch is DRIFT between model and   *)
 (* code - it keeps the model honest; it is never a property verdict.       *)
+(* Lines with op "insert" / "delete" are whole executions of edit.insert   *)
+(* and edit.delete (hooks insert_begin/_end, delete_begin/_end): there the *)
+(* model's composition of the primitives, its stitching of the patch's     *)
+(* blocks, edges and symbols and its clean-up loop are compared with the   *)
+(* code, modulo block identity (blocks are named by their position).       *)
 (***************************************************************************)
 EXTENDS Sequences, SequencesExt, Integers, FiniteSets, Functions, Json, IOUtils, TLC, TLCExt
 M == INSTANCE Modify
@@ -56,6 +61,37 @@ Norm(ir, known) ==
        fn |-> {<<id, ir.fn[id]>> : id \in {x \in ids : ir.fn[x] # ""}},
        ent |-> {id \in ir.ent : id \in ids /\ ir.fn[id] # ""}]
 
+\* the assembled patch handed to insert(), as the model's `code` record
+CodeOf(c) ==
+  LET ids == {c.blocks[i] : i \in DOMAIN c.blocks}
+      unitsOf(id) == LET x == SelectSeq(c.units, LAMBDA u : u[1] = id) IN
+                     IF x = <<>> THEN <<>> ELSE [j \in 1..Len(x[1][2]) |-> [n |-> x[1][2][j][1], k |-> x[1][2][j][2]]]
+      kindOf(id) == LET x == SelectSeq(c.kind, LAMBDA u : u[1] = id) IN x[1][2]
+      names == {c.syms[i][1] : i \in DOMAIN c.syms}
+      symOf(nm) == LET x == SelectSeq(c.syms, LAMBDA u : u[1] = nm) IN [ref |-> Node(x[1][2]), e |-> x[1][3], base |-> nm]
+  IN  [blocks |-> c.blocks,
+       units |-> [id \in ids |-> unitsOf(id)],
+       kind |-> [id \in ids |-> kindOf(id)],
+       cfg |-> {M!E(Node(c.cfg[i][1]), Node(c.cfg[i][2]), c.cfg[i][3], c.cfg[i][4], c.cfg[i][5]) : i \in DOMAIN c.cfg},
+       syms |-> [nm \in names |-> symOf(nm)],
+       nproxies |-> 0]
+
+\* comparison modulo block identity: a block is named by its position
+NormPos(ir, known, last) ==
+  LET ord == ir.order
+      ids == {ord[i] : i \in DOMAIN ord}
+      rk == [id \in ids |-> CHOOSE i \in DOMAIN ord : ord[i] = id]
+      nn(n) == IF n[1] = "b" THEN (IF n[2] \in ids THEN <<"b", rk[n[2]]>> ELSE <<"b", 0>>) ELSE Anon(known, n)
+  IN  [order |-> Len(ord),
+       sizes |-> [i \in 1..Len(ord) |-> [j \in 1..Len(ir.units[ord[i]]) |-> ir.units[ord[i]][j].n]],
+       kind |-> [i \in 1..Len(ord) |-> ir.kind[ord[i]]],
+       sym |-> {<<nm, nn(ir.sym[nm].ref), ir.sym[nm].e>> : nm \in DOMAIN ir.sym},
+       cfg |-> {<<nn(e.s), nn(e.t), e.ty, e.c, e.d>> :
+                  e \in {x \in ir.cfg : (x.s[1] = "b" => x.s[2] \in ids) /\ (x.t[1] = "b" => x.t[2] \in ids)}},
+       fn |-> {<<rk[id], ir.fn[id]>> : id \in {x \in ids : ir.fn[x] # ""}},
+       ent |-> {rk[id] : id \in {x \in ir.ent : x \in ids /\ ir.fn[x] # ""}},
+       last |-> IF last \in ids THEN rk[last] ELSE 0]
+
 UnitIndexAt(ir, id, off) ==
   LET us == ir.units[id]
       pre[k \in 0..Len(us)] == IF k = 0 THEN 0 ELSE pre[k - 1] + us[k].n
@@ -63,7 +99,7 @@ UnitIndexAt(ir, id, off) ==
   IN  IF c = {} THEN 0 - 1 ELSE CHOOSE k \in c : TRUE
 
 Predicted(t) ==
-  LET pre == IrOf(t.pre, IF t.op = "split_block" THEN t.args.new ELSE 0)
+  LET pre == IrOf(t.pre, IF t.op = "split_block" THEN t.args.new ELSE 500000)
   IN  CASE t.op = "split_block" ->
              LET k == UnitIndexAt(pre, t.args.b, t.args.off)
              IN  IF k < 0 THEN [ir |-> pre, ok |-> FALSE, removed |-> TRUE]
@@ -72,17 +108,30 @@ Predicted(t) ==
              \* join_blocks itself has no precondition beyond adjacency: insert() joins the
              \* patch's first block into its host unconditionally; Joinable guards the clean-up only
              [ir |-> M!Join(pre, t.args.b, t.args.b2), ok |-> TRUE, removed |-> TRUE]
+        [] t.op = "delete" ->
+             LET k == UnitIndexAt(pre, t.args.b, t.args.off)
+                 k2 == UnitIndexAt(pre, t.args.b, t.args.off + t.args.len)
+             IN  IF k < 0 \/ k2 < 0 THEN [ir |-> pre, ok |-> FALSE, removed |-> TRUE, last |-> 0]
+                 ELSE LET r == M!Delete(pre, t.args.b, k, k2 - k, t.args.proxy)
+                      IN  [ir |-> r.ir, ok |-> r.assertOk, removed |-> TRUE, last |-> r.last]
+        [] t.op = "insert" ->
+             LET k == UnitIndexAt(pre, t.args.b, t.args.off)
+                 k2 == UnitIndexAt(pre, t.args.b, t.args.off + t.args.repl)
+             IN  IF k < 0 \/ k2 < 0 THEN [ir |-> pre, ok |-> FALSE, removed |-> TRUE, last |-> 0]
+                 ELSE LET r == M!Insert(pre, t.args.b, k, k2 - k, CodeOf(t.args.code))
+                      IN  [ir |-> r.ir, ok |-> r.assertOk, removed |-> TRUE, last |-> r.last]
         [] t.op = "remove_block" ->
              LET r == M!RemoveBlk(pre, t.args.b, t.args.proxy)
              IN  [ir |-> r.ir, ok |-> TRUE, removed |-> r.removed]
 
-DiffFields(a, b) == {f \in {"order", "sizes", "kind", "sym", "cfg", "fn", "ent"} : a[f] # b[f]}
+DiffFields(a, b) == {f \in DOMAIN a : a[f] # b[f]}
+Composite(t) == t.op \in {"insert", "delete"}
 
 Verdict(t) ==
   LET known == KnownProxies(t.pre)
       p == Predicted(t)
-      exp == Norm(p.ir, known)
-      obs == Norm(IrOf(t.post, 0), known)
+      exp == IF Composite(t) THEN NormPos(p.ir, known, p.last) ELSE Norm(p.ir, known)
+      obs == IF Composite(t) THEN NormPos(IrOf(t.post, 0), known, t.args.last) ELSE Norm(IrOf(t.post, 0), known)
       same == p.ok /\ exp = obs /\ (t.op = "remove_block" => p.removed = t.args.removed)
   IN  [id |-> t.id, op |-> t.op, drift |-> ~same,
        fields |-> IF same THEN {} ELSE DiffFields(exp, obs),
